@@ -1,6 +1,7 @@
 // extern "C" access to the suppression API (real objects built by the real constructors/setters)
 #include "abg-suppression.h"
 #include "abg-suppression-priv.h"
+#include "abg-sptr-utils.h"
 using namespace abigail::suppr;
 extern "C" {
 type_suppression* w_ts_new(const std::string* name_regex, const std::string* name)
@@ -32,4 +33,22 @@ function_suppression* w_fs_new(const bool* cfg, unsigned change_kind, bool allow
 }
 bool w_fs_suppresses(const function_suppression* s, const abigail::ir::function_decl* fn, unsigned k)
 { return s->suppresses_function(fn, static_cast<function_suppression::change_kind>(k), abigail::comparison::diff_context_sptr()); }
+}
+extern "C" {
+// a real type_suppression named "T" with n integer insertion ranges [begins[i], ends[i]]
+type_suppression* w_ts_with_ranges(unsigned n, const int* begins, const int* ends)
+{
+  type_suppression* s = new type_suppression("l", "", "T");
+  type_suppression::insertion_ranges r;
+  r.reserve(2);
+  for (unsigned i = 0; i < n; ++i)
+    r.push_back(type_suppression::insertion_range_sptr
+		(new type_suppression::insertion_range
+		 (type_suppression::insertion_range::create_integer_boundary(begins[i]),
+		  type_suppression::insertion_range::create_integer_boundary(ends[i])),
+		 abigail::sptr_utils::noop_deleter()));   // (the class's destructor needs its private part)
+  s->set_data_member_insertion_ranges(r);
+  return s;
+}
+bool w_ts_suppresses_diff(const type_suppression* s, const abigail::comparison::diff* d) { return s->suppresses_diff(d); }
 }
